@@ -198,6 +198,39 @@ Proof.
       * destruct k; [congruence | reflexivity].
 Qed.
 
+(** INSTALL INTO LIVE STATE.  A running node in ANY reachable state [f] (it may lag: namespaces renamed
+    or created since are unknown to it) that loads the leader's snapshot afterwards holds, for every
+    namespace the leader has, exactly the leader's entry (name and flag), and keeps its own entry for the
+    ids the leader does not have (a namespace the leader deleted in the meantime stays: the recorded
+    finding install-overlays-live-state). *)
+Theorem ns_install_exact l f :
+  ns_inv l -> ns_already l = false -> sm_get str_cmp (ns_data l) NS_MARK = None ->
+  Forall wf_ns_entry (ns_data l) -> ns_inv f ->
+  forall k, sm_get str_cmp (ns_data (ns_install f l)) k =
+            match sm_get str_cmp (ns_data l) k with
+            | Some v => Some v
+            | None => sm_get str_cmp (ns_data f) k
+            end.
+Proof.
+  intros I AF NM WB IF k. pose proof I as [W P U]. pose proof IF as [Wf Pf Uf].
+  unfold ns_install, ns_snapshot. rewrite AF, app_nil_r.
+  destruct (ns_load_fold (filter keep (ns_data l)) f) as [o E].
+  - intros [id v] Hin. apply filter_In in Hin. destruct Hin as [Hin K]. cbn [fst snd].
+    unfold keep in K. cbn [fst snd] in K. apply andb_prop in K. destruct K as [K1 _].
+    assert (NE : id <> []) by (intros ->; discriminate).
+    assert (G : sm_get str_cmp (ns_data l) id = Some v) by now apply (in_get_some _ SOK).
+    destruct (U id v G NE) as [FU EP].
+    split; [exact NE | split; [exact EP | split; [intros ->; congruence | split; [exact FU |]]]].
+    rewrite Forall_forall in WB. apply (WB _ Hin).
+  - intros id v G NE. apply (Uf id v G NE).
+  - unfold keep in E. rewrite E. cbn [ns_data]. fold keep.
+    rewrite (rebuild_get _ SOK) by now apply filter_wf. rewrite filter_get by exact W.
+    destruct (sm_get str_cmp (ns_data l) k) as [v |] eqn:G; [| reflexivity].
+    destruct k as [| c k].
+    + rewrite P in G. injection G as <-. cbn. exact Pf.
+    + destruct (U _ _ G ltac:(discriminate)) as [FU _]. unfold keep. cbn [fst snd str_is_empty]. rewrite FU. reflexivity.
+Qed.
+
 (** ** REFUTED without [ns_already = false] (finding C01:namespace-already-sync-marker): once
     InitFromOldValue was applied, the marker record is loaded back as an ordinary namespace *)
 Definition ns_after_init : nsstate := ns_apply ns_init (NsInit []).
